@@ -87,10 +87,77 @@ theorem ghost_sub (side : Side) (sqrt : K → K) (A : CRS K) (P : Vec K → Vec 
     (innerPassG side sqrt A P st g0 j).2.Ht.get (i + 1) i = arnoldiNorm side sqrt A P st i :=
   ghost_col side sqrt A P st g0 j i hi (i + 1)
 
+/-- the orthogonalised, not yet normalised vector `w` of the pass that starts in state `t` -/
+def orthVecOf (side : Side) (sqrt : K → K) (A : CRS K) (P : Vec K → Vec K) (t : In K) : Vec K :=
+  (mgs stdIp t.w.v t.j t.w.h.H (stepV side A P t)).2
+
+/-- the ghost vector `w_i` is the one pass `i` computed -/
+theorem ghost_W (side : Side) (sqrt : K → K) (A : CRS K) (P : Vec K → Vec K) (st : GMRES.St K) (g0 : Ghost K) :
+    ∀ j i, i < j → (innerPassG side sqrt A P st g0 j).2.W.get i
+      = orthVecOf side sqrt A P (innerPass side sqrt A P st i) := by
+  intro j
+  induction j with
+  | zero => intro i hi; omega
+  | succ j ih =>
+    intro i hi
+    rw [innerPassG_succ]
+    show (setF (innerPassG side sqrt A P st g0 j).2.W (innerPassG side sqrt A P st g0 j).1.j _).get i = _
+    rw [setF_get, innerPassG_fst, innerPass_j]
+    by_cases hij : i = j
+    · rw [if_pos hij, hij]; unfold orthVecOf; rw [innerPass_j]
+    · rw [if_neg hij]; exact ih i (by omega)
+
+/-- the entries of `s` beyond the current index are still zero (`std::fill(s, 0)` at the start of the cycle) -/
+theorem innerPass_s_zero (side : Side) (sqrt : K → K) (A : CRS K) (P : Vec K → Vec K) (st : GMRES.St K) :
+    ∀ j a, j < a → (innerPass side sqrt A P st j).w.h.s.get a = 0 := by
+  intro j
+  induction j with
+  | zero =>
+    intro a ha
+    show (sInit st.normR).get a = 0
+    rw [sInit_get, if_neg (by omega)]
+  | succ j ih =>
+    intro a ha
+    rw [innerPass_succ]
+    have hj := innerPass_j side sqrt A P st j
+    have := (hessStep_frame stdIp sqrt (innerPass side sqrt A P st j).w.v (innerPass side sqrt A P st j).j
+      (innerPass side sqrt A P st j).w.h (stepV side A P (innerPass side sqrt A P st j))).2.2.2 a
+      (by rw [hj]; omega) (by rw [hj]; omega)
+    exact this.trans (ih a (by omega))
+
 end passes
 
 section inv
 variable {K : Type} [Field K] [LinearOrder K] [IsStrictOrderedRing K]
+
+theorem stdIp_self_nonneg (x : Vec K) : 0 ≤ stdIp x x := by
+  rw [stdIp_eq_finsum x.size x x rfl rfl]
+  exact sum_nonneg (fun i _ => mul_self_nonneg _)
+
+/-- the number the pass that starts in state `t` hands to the square root inside `generate_plane_rotation` -/
+def rotArgOf (side : Side) (sqrt : K → K) (A : CRS K) (P : Vec K → Vec K) (t : In K) : K :=
+  genRotArg
+    ((rotCol t.j (orth stdIp sqrt t.w.v t.j t.w.h.H (stepV side A P t)).1 t.w.h.cs t.w.h.sn).get t.j t.j)
+    ((rotCol t.j (orth stdIp sqrt t.w.v t.j t.w.h.H (stepV side A P t)).1 t.w.h.cs t.w.h.sn).get (t.j + 1) t.j)
+
+/-- **the square root is exact on every number the first `j` passes of the cycle apply it to**: `⟨r,r⟩` at the start
+of the cycle, and in pass `i < j` the norm `⟨w_i,w_i⟩` of the orthogonalised vector and the argument `1 + tmp²` of
+`generate_plane_rotation`.  Implied by `∀ x ≥ 0, sqrt x · sqrt x = x` (`rootsExact_of_hsqrt`); decidable on concrete
+rational inputs. -/
+structure RootsExact (side : Side) (sqrt : K → K) (A : CRS K) (P : Vec K → Vec K) (st : GMRES.St K) (j : ℕ) :
+    Prop where
+  r0 : RootAt sqrt (stdIp st.w.r st.w.r)
+  orth : ∀ i, i < j → RootAt sqrt (stdIp (orthVecOf side sqrt A P (innerPass side sqrt A P st i))
+    (orthVecOf side sqrt A P (innerPass side sqrt A P st i)))
+  rot : ∀ i, i < j → RootAt sqrt (rotArgOf side sqrt A P (innerPass side sqrt A P st i))
+
+theorem RootsExact.mono {side : Side} {sqrt : K → K} {A : CRS K} {P : Vec K → Vec K} {st : GMRES.St K} {j m : ℕ}
+    (h : RootsExact side sqrt A P st j) (hm : m ≤ j) : RootsExact side sqrt A P st m :=
+  ⟨h.r0, fun i hi => h.orth i (by omega), fun i hi => h.rot i (by omega)⟩
+
+theorem rootsExact_of_hsqrt (side : Side) (sqrt : K → K) (hsqrt : ∀ x, 0 ≤ x → sqrt x * sqrt x = x) (A : CRS K)
+    (P : Vec K → Vec K) (st : GMRES.St K) (j : ℕ) : RootsExact side sqrt A P st j :=
+  ⟨hsqrt _ (stdIp_self_nonneg _), fun _ _ => hsqrt _ (stdIp_self_nonneg _), fun _ _ => hsqrt _ (genRotArg_nonneg _ _)⟩
 
 /-- the invariant: the Givens relation and regularity of the triangular factor -/
 def GivInv (β : K) (g : In K × Ghost K) : Prop :=
@@ -104,12 +171,15 @@ theorem cycleStart_givInv (st : GMRES.St K) (g0 : Ghost K) : GivInv st.normR (cy
   show e0 st.normR a = (sInit st.normR).get a
   rw [sInit_get]; rfl
 
-theorem stepG_givInv (side : Side) (sqrt : K → K) (hsqrt : ∀ x, 0 ≤ x → sqrt x * sqrt x = x) (A : CRS K)
-    (P : Vec K → Vec K) (β : K) (g : In K × Ghost K) (h : GivInv β g) :
-    GivInv β (stepG side stdIp sqrt A P g) := by
+theorem stepG_givInv (side : Side) (sqrt : K → K) (A : CRS K)
+    (P : Vec K → Vec K) (β : K) (g : In K × Ghost K) (hg : RootAt sqrt (rotArgOf side sqrt A P g.1))
+    (h : GivInv β g) : GivInv β (stepG side stdIp sqrt A P g) := by
   obtain ⟨t, gh⟩ := g
   obtain ⟨⟨hu, hc, hr⟩, hd⟩ := h
   simp only at hu hc hr hd
+  change RootAt sqrt (genRotArg
+    ((rotCol t.j (orth stdIp sqrt t.w.v t.j t.w.h.H (stepV side A P t)).1 t.w.h.cs t.w.h.sn).get t.j t.j)
+    ((rotCol t.j (orth stdIp sqrt t.w.v t.j t.w.h.H (stepV side A P t)).1 t.w.h.cs t.w.h.sn).get (t.j + 1) t.j)) at hg
   have hHt : ∀ a b, (stepG side stdIp sqrt A P (t, gh)).2.Ht.get a b
       = if b = t.j then (orth stdIp sqrt t.w.v t.j t.w.h.H (stepV side A P t)).1.get a b else gh.Ht.get a b :=
     fun _ _ => rfl
@@ -125,13 +195,13 @@ theorem stepG_givInv (side : Side) (sqrt : K → K) (hsqrt : ∀ x, 0 ≤ x → 
     ∀ i, i < t.j + 1 → (stepG side stdIp sqrt A P (t, gh)).2.Ht.get (i + 1) i ≠ 0 →
       (rotate sqrt t.j t.w.h (orth stdIp sqrt t.w.v t.j t.w.h.H (stepV side A P t)).1).1.H.get i i ≠ 0
   generalize (stepG side stdIp sqrt A P (t, gh)).2.Ht = Ht' at hHt ⊢
-  generalize (orth stdIp sqrt t.w.v t.j t.w.h.H (stepV side A P t)).1 = H2 at hHt hH2o ⊢
+  generalize (orth stdIp sqrt t.w.v t.j t.w.h.H (stepV side A P t)).1 = H2 at hHt hH2o hg ⊢
   obtain ⟨rcs, rsn, rs, rH, _⟩ := rotate_spec sqrt t.j t.w.h H2
   obtain ⟨rf, _, _, _⟩ := rotate_frame sqrt t.j t.w.h H2
-  obtain ⟨g1, g2⟩ := genRot_spec sqrt hsqrt ((rotCol t.j H2 t.w.h.cs t.w.h.sn).get t.j t.j)
-    ((rotCol t.j H2 t.w.h.cs t.w.h.sn).get (t.j + 1) t.j)
-  have hdiag := genRot_diag_ne sqrt hsqrt ((rotCol t.j H2 t.w.h.cs t.w.h.sn).get t.j t.j)
-    ((rotCol t.j H2 t.w.h.cs t.w.h.sn).get (t.j + 1) t.j)
+  obtain ⟨g1, g2⟩ := genRot_spec sqrt ((rotCol t.j H2 t.w.h.cs t.w.h.sn).get t.j t.j)
+    ((rotCol t.j H2 t.w.h.cs t.w.h.sn).get (t.j + 1) t.j) hg
+  have hdiag := genRot_diag_ne sqrt ((rotCol t.j H2 t.w.h.cs t.w.h.sn).get t.j t.j)
+    ((rotCol t.j H2 t.w.h.cs t.w.h.sn).get (t.j + 1) t.j) hg
   change (rotG sqrt t.j t.w.h H2).1 * (rotG sqrt t.j t.w.h H2).1
     + (rotG sqrt t.j t.w.h H2).2 * (rotG sqrt t.j t.w.h H2).2 = 1 at g1
   change -(rotG sqrt t.j t.w.h H2).2 * _ + (rotG sqrt t.j t.w.h H2).1 * _ = 0 at g2
@@ -205,52 +275,60 @@ theorem stepG_givInv (side : Side) (sqrt : K → K) (hsqrt : ∀ x, 0 ≤ x → 
       rw [rf i i (Or.inl hij), hH2o i i hij]
       exact hd i (by omega) hne
 
-/-- the Givens relation holds after every number of passes of the inner loop -/
-theorem innerPassG_givInv (side : Side) (sqrt : K → K) (hsqrt : ∀ x, 0 ≤ x → sqrt x * sqrt x = x) (A : CRS K)
-    (P : Vec K → Vec K) (st : GMRES.St K) (g0 : Ghost K) (j : ℕ) :
+/-- the Givens relation holds after `j` passes of the inner loop, roots exact in the rotations of these passes -/
+theorem innerPassG_givInv (side : Side) (sqrt : K → K) (A : CRS K)
+    (P : Vec K → Vec K) (st : GMRES.St K) (g0 : Ghost K) (j : ℕ)
+    (hrot : ∀ i, i < j → RootAt sqrt (rotArgOf side sqrt A P (innerPass side sqrt A P st i))) :
     GivInv st.normR (innerPassG side sqrt A P st g0 j) := by
   induction j with
   | zero => exact cycleStart_givInv st g0
-  | succ j ih => rw [innerPassG_succ]; exact stepG_givInv side sqrt hsqrt A P _ _ ih
+  | succ j ih =>
+    rw [innerPassG_succ]
+    refine stepG_givInv side sqrt A P _ _ ?_ (ih (fun i hi => hrot i (by omega)))
+    rw [innerPassG_fst]; exact hrot j (Nat.lt_succ_self j)
 
 /-- … in terms of the model's state -/
-theorem innerPassG_givens (side : Side) (sqrt : K → K) (hsqrt : ∀ x, 0 ≤ x → sqrt x * sqrt x = x) (A : CRS K)
-    (P : Vec K → Vec K) (st : GMRES.St K) (g0 : Ghost K) (j : ℕ) :
+theorem innerPassG_givens (side : Side) (sqrt : K → K) (A : CRS K)
+    (P : Vec K → Vec K) (st : GMRES.St K) (g0 : Ghost K) (j : ℕ)
+    (hrot : ∀ i, i < j → RootAt sqrt (rotArgOf side sqrt A P (innerPass side sqrt A P st i))) :
     GivensRel j (innerPass side sqrt A P st j).w.h.cs.get (innerPass side sqrt A P st j).w.h.sn.get
       (innerPass side sqrt A P st j).w.h.H.get (innerPassG side sqrt A P st g0 j).2.Ht.get
       (innerPass side sqrt A P st j).w.h.s.get st.normR ∧
     ∀ i, i < j → arnoldiNorm side sqrt A P st i ≠ 0 → (innerPass side sqrt A P st j).w.h.H.get i i ≠ 0 := by
-  have h := innerPassG_givInv side sqrt hsqrt A P st g0 j
+  have h := innerPassG_givInv side sqrt A P st g0 j hrot
   unfold GivInv at h
   rw [innerPassG_fst, innerPass_j] at h
   refine ⟨h.1, fun i hi hne => h.2 i hi ?_⟩
   rw [ghost_sub side sqrt A P st g0 j i hi]; exact hne
 
-/-- the entries of `s` beyond the current index are still zero -/
-theorem innerPass_s_zero (side : Side) (sqrt : K → K) (hsqrt : ∀ x, 0 ≤ x → sqrt x * sqrt x = x) (A : CRS K)
-    (P : Vec K → Vec K) (st : GMRES.St K) (j a : ℕ) (ha : j < a) :
-    (innerPass side sqrt A P st j).w.h.s.get a = 0 := by
-  have h := (innerPassG_givens side sqrt hsqrt A P st ⟨.const 0, .const #[]⟩ j).1.rhs
-  rw [← congrFun h a, rotSeq_of_gt _ _ _ _ _ ha]
-  simp only [e0]; rw [if_neg (by omega)]
+/-- the `inner_res` of the loop state after `j+1` passes is `|s_{j+1}|` -/
+theorem innerPass_innerRes (side : Side) (sqrt : K → K) (A : CRS K) (P : Vec K → Vec K) (st : GMRES.St K) (j : ℕ) :
+    (innerPass side sqrt A P st (j + 1)).innerRes
+      = Solver.absK ((innerPass side sqrt A P st (j + 1)).w.h.s.get (j + 1)) := by
+  have hj := innerPass_j side sqrt A P st j
+  rw [innerPass_succ]
+  generalize innerPass side sqrt A P st j = t at hj ⊢
+  subst hj
+  exact (rotate_spec sqrt t.j t.w.h (orth stdIp sqrt t.w.v t.j t.w.h.H (stepV side A P t)).1).2.2.2.2
 
 /-- **the residual estimate does not increase**: `|s_{j+1}|` after pass `j+1` is `|sn_j|·|s_j| ≤ |s_j|` -/
-theorem innerRes_antitone (side : Side) (sqrt : K → K) (hsqrt : ∀ x, 0 ≤ x → sqrt x * sqrt x = x) (A : CRS K)
-    (P : Vec K → Vec K) (st : GMRES.St K) (j : ℕ) :
+theorem innerRes_antitone (side : Side) (sqrt : K → K) (A : CRS K)
+    (P : Vec K → Vec K) (st : GMRES.St K) (j : ℕ)
+    (hg : RootAt sqrt (rotArgOf side sqrt A P (innerPass side sqrt A P st j))) :
     (innerPass side sqrt A P st (j + 1)).innerRes = Solver.absK ((innerPass side sqrt A P st (j + 1)).w.h.s.get (j + 1)) ∧
     Solver.absK ((innerPass side sqrt A P st (j + 1)).w.h.s.get (j + 1))
       ≤ Solver.absK ((innerPass side sqrt A P st j).w.h.s.get j) := by
-  have hz := innerPass_s_zero side sqrt hsqrt A P st j (j + 1) (Nat.lt_succ_self j)
+  have hz := innerPass_s_zero side sqrt A P st j (j + 1) (Nat.lt_succ_self j)
   have hj := innerPass_j side sqrt A P st j
   rw [innerPass_succ]
-  generalize innerPass side sqrt A P st j = t at hz hj ⊢
+  generalize innerPass side sqrt A P st j = t at hz hj hg ⊢
   subst hj
   obtain ⟨_, _, rs, _, rres⟩ := rotate_spec sqrt t.j t.w.h (orth stdIp sqrt t.w.v t.j t.w.h.H (stepV side A P t)).1
   have g1 : (rotG sqrt t.j t.w.h (orth stdIp sqrt t.w.v t.j t.w.h.H (stepV side A P t)).1).1
         * (rotG sqrt t.j t.w.h (orth stdIp sqrt t.w.v t.j t.w.h.H (stepV side A P t)).1).1
       + (rotG sqrt t.j t.w.h (orth stdIp sqrt t.w.v t.j t.w.h.H (stepV side A P t)).1).2
         * (rotG sqrt t.j t.w.h (orth stdIp sqrt t.w.v t.j t.w.h.H (stepV side A P t)).1).2 = 1 :=
-    (genRot_spec sqrt hsqrt _ _).1
+    (genRot_spec sqrt _ _ hg).1
   refine ⟨rres, ?_⟩
   show Solver.absK ((rotate sqrt t.j t.w.h (orth stdIp sqrt t.w.v t.j t.w.h.H (stepV side A P t)).1).1.s.get (t.j + 1)) ≤ _
   rw [rs (t.j + 1)]
